@@ -40,6 +40,7 @@ import EPV.Gen.Noh
 import EPV.Gen.Cog19
 import EPV.Props.C07.Hydro
 import EPV.Tactics
+import EPV.Lemmas.Bridge.Noh
 import EPV.Lemmas.Bridge.EosTac
 
 set_option linter.all false
@@ -186,9 +187,8 @@ theorem bbnoh_eq_noh (p : BBNohIdeal.P) (q : ResPressureIdeal_res.P) (r t : ℝ)
   obtain ⟨hγ, hu, hρ0, -, -, hρ⟩ := (res_ok_iff q _ _ _).mp hok
   obtain ⟨cγ, cs, cρ, cu, cp⟩ := hc
   have hu' : p.u0 < 0 := cu ▸ hu
-  have c0 : ¬ BBNohIdeal.c0 p r t := by simp only [epv_cond, cγ]; exact hγ
-  have c2 : ¬ BBNohIdeal.c2 p r t := by simp only [epv_cond, cρ]; exact hρ0.ne'
-  have c3 : ¬ BBNohIdeal.c3 p r t := by simpa only [epv_cond] using hρ
+  have hγ' : p.gamma ≠ 1 := cγ ▸ hγ
+  have hρ0' : p.rho0 ≠ 0 := by rw [cρ]; exact hρ0.ne'
   have hb : BBNohIdeal.c1 p r t ↔ Noh.c0 (nohOfBB p) r t := by
     simp only [epv_cond, nohOfBB, hx2, nohSpeed, ← cγ, ← cu, abs_of_neg hu']
     constructor <;> intro h <;> linarith
@@ -199,18 +199,21 @@ theorem bbnoh_eq_noh (p : BBNohIdeal.P) (q : ResPressureIdeal_res.P) (r t : ℝ)
   have hab : |p.u0| = -p.u0 := abs_of_neg hu'
   have hbase : 1 - p.u0 * (t / r) = 1 + -p.u0 * t / r := by ring
   refine ⟨?_, ?_, hb, ?_, ?_, ?_, ?_, ?_⟩
-  · simp only [epv_tree, c0, c2, c3, if_false, ite_self]
+  · -- accepted on both sides of the shock test (which the context does not decide)
+    simp only [epv_tree] <;> epv_eos_ifs
   · simp only [epv_tree, ite_self]
   all_goals
     by_cases hN : Noh.c0 (nohOfBB p) r t
     · have hB := hb.mpr hN
-      simp only [epv_tree, c0, c2, c3, if_false, if_pos hN, if_pos hB]
-      simp only [epv_leaf, nohOfBB, e0, e1, ep, hab, hbase, add_sub_cancel_right, zero_div]
-      try (first | ring1 | ring_nf)
+      simp only [epv_cond] at hB
+      simp only [epv_tree, if_pos hN] <;> epv_eos_ifs <;>
+      (simp only [epv_leaf, nohOfBB, e0, e1, ep, hab, hbase, add_sub_cancel_right, zero_div]
+       try (first | ring1 | ring_nf))
     · have hB := fun h => hN (hb.mp h)
-      simp only [epv_tree, c0, c2, c3, if_false, if_neg hN, if_neg hB]
-      simp only [epv_leaf, nohOfBB, e0, e1, ep, hab, hbase, add_sub_cancel_right, zero_div]
-      try (first | ring1 | ring_nf)
+      simp only [epv_cond] at hB
+      simp only [epv_tree, if_neg hN] <;> epv_eos_ifs <;>
+      (simp only [epv_leaf, nohOfBB, e0, e1, ep, hab, hbase, add_sub_cancel_right, zero_div]
+       try (first | ring1 | ring_nf))
 
 /-- … and therefore = Coggeshall 19 with the same (γ, k = symmetry + 1, ρ₀, u₀) and any Γ ≠ 0: density, velocity,
 pressure, specific internal energy, and T = (γ-1) e / Γ   (r ≠ 0, γ > 1 as `noh_eq_cog19` needs) -/
@@ -354,33 +357,42 @@ theorem bbrunPlanar_eq_noh (p : BBRunPlanar.P) (r t : ℝ) (hok : BBRunPlanar.ou
     BBRunPlanar.pressure p r t = Noh.pressure ⟨p.gamma, 1, 1, -1⟩ r t ∧
     BBRunPlanar.specific_internal_energy p r t = Noh.specific_internal_energy ⟨p.gamma, 1, 1, -1⟩ r t ∧
     BBRunPlanar.velocity p r t = Noh.velocity ⟨p.gamma, 1, 1, -1⟩ r t := by
-  have hγ : p.gamma ≠ 1 := by
-    intro h; simp only [epv_tree, epv_cond, h, if_true] at hok; exact absurd hok (by decide)
-  have hx0 : p.x0 ≠ 0 := by
-    intro h; simp only [epv_tree, epv_cond, h, if_true, ite_self] at hok
-    split_ifs at hok <;> exact absurd hok (by decide)
-  have hroot : p.x1 = 1 / 2 ∧ p.x2 = (p.gamma - 1) / 2 ∧ p.x0 = ((p.gamma + 1) / (p.gamma - 1)) ^ (1 : ℕ) := by
-    simp only [epv_tree, epv_cond, hγ, hx0, if_false, ite_self, epv_leaf] at h0 h1 h2
-    exact default_root_algebra p.gamma p.x0 p.x1 p.x2 1 hγ hx0 (by linear_combination h0) (by linear_combination h1)
-      (by norm_num at h2; linarith)
-  obtain ⟨e1, e2, e0⟩ := hroot
-  have hb : BBRunPlanar.c1 p r t ↔ Noh.c0 ⟨p.gamma, 1, 1, -1⟩ r t := by
-    simp only [epv_cond, e2, abs_neg, abs_one]
+  -- the documented facts behind acceptance, whatever the order and form of the traced guards
+  have hf : p.gamma ≠ 1 ∧ p.x0 ≠ 0 := by
+    simp only [epv_tree] at hok
+    split_ifs at hok <;> first
+      | epv_absurd
+      | (simp only [epv_cond] at *
+         exact ⟨by epv_eos_fact, by epv_eos_fact⟩)
+  obtain ⟨hγ, hx0⟩ := hf
+  have hg1 : p.gamma - 1 ≠ 0 := sub_ne_zero.mpr hγ
+  -- the residual handed to the solver (the shock test is not decided by the context: both sides return the same residual)
+  have v0 : BBRunPlanar.resF0 p r t = p.x0 - (1 + 1 / p.x2) ^ (1 : ℕ) := by
+    simp only [epv_tree] <;> epv_eos_ifs <;> simp only [epv_leaf] <;> epv_eos_field
+  have v1 : BBRunPlanar.resF1 p r t = p.x0 * (p.x1 * (p.gamma - 1) - p.x2) := by
+    simp only [epv_tree] <;> epv_eos_ifs <;> simp only [epv_leaf] <;> epv_eos_field
+  have v2 : BBRunPlanar.resF2 p r t = p.x1 - 1 / 2 := by
+    simp only [epv_tree] <;> epv_eos_ifs <;> simp only [epv_leaf] <;> epv_eos_field
+  rw [v0] at h0; rw [v1] at h1; rw [v2] at h2
+  obtain ⟨e1, e2, e0⟩ := default_root_algebra p.gamma p.x0 p.x1 p.x2 1 hγ hx0 (by linear_combination h0) h1 (by linarith)
+  have hx2t : p.x2 * t = (p.gamma - 1) / 2 * t := by rw [e2]
+  have hb : r < p.x2 * t ↔ Noh.c0 ⟨p.gamma, 1, 1, -1⟩ r t := by
+    rw [Bridge.noh_c0_iff]
+    simp only [abs_neg, abs_one, hx2t]
     constructor <;> intro h <;> linarith
-  have c0 : ¬ BBRunPlanar.c0 p r t := by simpa only [epv_cond] using hγ
-  have c2 : ¬ BBRunPlanar.c2 p r t := by simpa only [epv_cond] using hx0
-  have c3 : ¬ BBRunPlanar.c3 p r t := by simpa only [epv_cond] using hx0
   refine ⟨e0, e1, e2, by simp only [epv_tree, ite_self], ?_, ?_, ?_, ?_, ?_⟩
   all_goals
     by_cases hN : Noh.c0 ⟨p.gamma, 1, 1, -1⟩ r t
     · have hB := hb.mpr hN
-      simp only [epv_tree, c0, c2, c3, if_false, if_pos hN, if_pos hB]
-      simp only [epv_leaf, e0, e1, abs_neg, abs_one]
-      try (norm_num <;> first | ring1 | ring_nf)
-    · have hB := fun h => hN (hb.mp h)
-      simp only [epv_tree, c0, c2, c3, if_false, if_neg hN, if_neg hB]
-      simp only [epv_leaf, e0, e1, abs_neg, abs_one]
-      try (norm_num <;> first | ring1 | ring_nf)
+      simp only [epv_cond] at hN
+      simp only [epv_tree] <;> epv_eos_ifs <;>
+      (simp only [epv_leaf, e0, e1, abs_neg, abs_one]
+       try (norm_num <;> first | ring1 | ring_nf))
+    · have hB : ¬ r < p.x2 * t := fun h => hN (hb.mp h)
+      simp only [epv_cond] at hN
+      simp only [epv_tree] <;> epv_eos_ifs <;>
+      (simp only [epv_leaf, e0, e1, abs_neg, abs_one]
+       try (norm_num <;> first | ring1 | ring_nf))
 
 /-- `CylindricalNohBlackBox(ideal_gas_eos(γ))` = `Noh(γ, geometry = 2)` -/
 theorem bbrunCylindrical_eq_noh (p : BBRunCylindrical.P) (r t : ℝ) (hok : BBRunCylindrical.outcome p r t = .ok)
@@ -392,33 +404,42 @@ theorem bbrunCylindrical_eq_noh (p : BBRunCylindrical.P) (r t : ℝ) (hok : BBRu
     BBRunCylindrical.pressure p r t = Noh.pressure ⟨p.gamma, 2, 1, -1⟩ r t ∧
     BBRunCylindrical.specific_internal_energy p r t = Noh.specific_internal_energy ⟨p.gamma, 2, 1, -1⟩ r t ∧
     BBRunCylindrical.velocity p r t = Noh.velocity ⟨p.gamma, 2, 1, -1⟩ r t := by
-  have hγ : p.gamma ≠ 1 := by
-    intro h; simp only [epv_tree, epv_cond, h, if_true] at hok; exact absurd hok (by decide)
-  have hx0 : p.x0 ≠ 0 := by
-    intro h; simp only [epv_tree, epv_cond, h, if_true, ite_self] at hok
-    split_ifs at hok <;> exact absurd hok (by decide)
-  have hroot : p.x1 = 1 / 2 ∧ p.x2 = (p.gamma - 1) / 2 ∧ p.x0 = ((p.gamma + 1) / (p.gamma - 1)) ^ (2 : ℕ) := by
-    simp only [epv_tree, epv_cond, hγ, hx0, if_false, ite_self, epv_leaf] at h0 h1 h2
-    exact default_root_algebra p.gamma p.x0 p.x1 p.x2 2 hγ hx0 (by linear_combination h0) (by linear_combination h1)
-      (by norm_num at h2; linarith)
-  obtain ⟨e1, e2, e0⟩ := hroot
-  have hb : BBRunCylindrical.c1 p r t ↔ Noh.c0 ⟨p.gamma, 2, 1, -1⟩ r t := by
-    simp only [epv_cond, e2, abs_neg, abs_one]
+  -- the documented facts behind acceptance, whatever the order and form of the traced guards
+  have hf : p.gamma ≠ 1 ∧ p.x0 ≠ 0 := by
+    simp only [epv_tree] at hok
+    split_ifs at hok <;> first
+      | epv_absurd
+      | (simp only [epv_cond] at *
+         exact ⟨by epv_eos_fact, by epv_eos_fact⟩)
+  obtain ⟨hγ, hx0⟩ := hf
+  have hg1 : p.gamma - 1 ≠ 0 := sub_ne_zero.mpr hγ
+  -- the residual handed to the solver (the shock test is not decided by the context: both sides return the same residual)
+  have v0 : BBRunCylindrical.resF0 p r t = p.x0 - (1 + 1 / p.x2) ^ (2 : ℕ) := by
+    simp only [epv_tree] <;> epv_eos_ifs <;> simp only [epv_leaf] <;> epv_eos_field
+  have v1 : BBRunCylindrical.resF1 p r t = p.x0 * (p.x1 * (p.gamma - 1) - p.x2) := by
+    simp only [epv_tree] <;> epv_eos_ifs <;> simp only [epv_leaf] <;> epv_eos_field
+  have v2 : BBRunCylindrical.resF2 p r t = p.x1 - 1 / 2 := by
+    simp only [epv_tree] <;> epv_eos_ifs <;> simp only [epv_leaf] <;> epv_eos_field
+  rw [v0] at h0; rw [v1] at h1; rw [v2] at h2
+  obtain ⟨e1, e2, e0⟩ := default_root_algebra p.gamma p.x0 p.x1 p.x2 2 hγ hx0 (by linear_combination h0) h1 (by linarith)
+  have hx2t : p.x2 * t = (p.gamma - 1) / 2 * t := by rw [e2]
+  have hb : r < p.x2 * t ↔ Noh.c0 ⟨p.gamma, 2, 1, -1⟩ r t := by
+    rw [Bridge.noh_c0_iff]
+    simp only [abs_neg, abs_one, hx2t]
     constructor <;> intro h <;> linarith
-  have c0 : ¬ BBRunCylindrical.c0 p r t := by simpa only [epv_cond] using hγ
-  have c2 : ¬ BBRunCylindrical.c2 p r t := by simpa only [epv_cond] using hx0
-  have c3 : ¬ BBRunCylindrical.c3 p r t := by simpa only [epv_cond] using hx0
   refine ⟨e0, e1, e2, by simp only [epv_tree, ite_self], ?_, ?_, ?_, ?_, ?_⟩
   all_goals
     by_cases hN : Noh.c0 ⟨p.gamma, 2, 1, -1⟩ r t
     · have hB := hb.mpr hN
-      simp only [epv_tree, c0, c2, c3, if_false, if_pos hN, if_pos hB]
-      simp only [epv_leaf, e0, e1, abs_neg, abs_one]
-      try (norm_num <;> first | ring1 | ring_nf)
-    · have hB := fun h => hN (hb.mp h)
-      simp only [epv_tree, c0, c2, c3, if_false, if_neg hN, if_neg hB]
-      simp only [epv_leaf, e0, e1, abs_neg, abs_one]
-      try (norm_num <;> first | ring1 | ring_nf)
+      simp only [epv_cond] at hN
+      simp only [epv_tree] <;> epv_eos_ifs <;>
+      (simp only [epv_leaf, e0, e1, abs_neg, abs_one]
+       try (norm_num <;> first | ring1 | ring_nf))
+    · have hB : ¬ r < p.x2 * t := fun h => hN (hb.mp h)
+      simp only [epv_cond] at hN
+      simp only [epv_tree] <;> epv_eos_ifs <;>
+      (simp only [epv_leaf, e0, e1, abs_neg, abs_one]
+       try (norm_num <;> first | ring1 | ring_nf))
 
 /-- `SphericalNohBlackBox(ideal_gas_eos(γ))` = `Noh(γ, geometry = 3)` -/
 theorem bbrunSpherical_eq_noh (p : BBRunSpherical.P) (r t : ℝ) (hok : BBRunSpherical.outcome p r t = .ok)
@@ -430,33 +451,42 @@ theorem bbrunSpherical_eq_noh (p : BBRunSpherical.P) (r t : ℝ) (hok : BBRunSph
     BBRunSpherical.pressure p r t = Noh.pressure ⟨p.gamma, 3, 1, -1⟩ r t ∧
     BBRunSpherical.specific_internal_energy p r t = Noh.specific_internal_energy ⟨p.gamma, 3, 1, -1⟩ r t ∧
     BBRunSpherical.velocity p r t = Noh.velocity ⟨p.gamma, 3, 1, -1⟩ r t := by
-  have hγ : p.gamma ≠ 1 := by
-    intro h; simp only [epv_tree, epv_cond, h, if_true] at hok; exact absurd hok (by decide)
-  have hx0 : p.x0 ≠ 0 := by
-    intro h; simp only [epv_tree, epv_cond, h, if_true, ite_self] at hok
-    split_ifs at hok <;> exact absurd hok (by decide)
-  have hroot : p.x1 = 1 / 2 ∧ p.x2 = (p.gamma - 1) / 2 ∧ p.x0 = ((p.gamma + 1) / (p.gamma - 1)) ^ (3 : ℕ) := by
-    simp only [epv_tree, epv_cond, hγ, hx0, if_false, ite_self, epv_leaf] at h0 h1 h2
-    exact default_root_algebra p.gamma p.x0 p.x1 p.x2 3 hγ hx0 (by linear_combination h0) (by linear_combination h1)
-      (by norm_num at h2; linarith)
-  obtain ⟨e1, e2, e0⟩ := hroot
-  have hb : BBRunSpherical.c1 p r t ↔ Noh.c0 ⟨p.gamma, 3, 1, -1⟩ r t := by
-    simp only [epv_cond, e2, abs_neg, abs_one]
+  -- the documented facts behind acceptance, whatever the order and form of the traced guards
+  have hf : p.gamma ≠ 1 ∧ p.x0 ≠ 0 := by
+    simp only [epv_tree] at hok
+    split_ifs at hok <;> first
+      | epv_absurd
+      | (simp only [epv_cond] at *
+         exact ⟨by epv_eos_fact, by epv_eos_fact⟩)
+  obtain ⟨hγ, hx0⟩ := hf
+  have hg1 : p.gamma - 1 ≠ 0 := sub_ne_zero.mpr hγ
+  -- the residual handed to the solver (the shock test is not decided by the context: both sides return the same residual)
+  have v0 : BBRunSpherical.resF0 p r t = p.x0 - (1 + 1 / p.x2) ^ (3 : ℕ) := by
+    simp only [epv_tree] <;> epv_eos_ifs <;> simp only [epv_leaf] <;> epv_eos_field
+  have v1 : BBRunSpherical.resF1 p r t = p.x0 * (p.x1 * (p.gamma - 1) - p.x2) := by
+    simp only [epv_tree] <;> epv_eos_ifs <;> simp only [epv_leaf] <;> epv_eos_field
+  have v2 : BBRunSpherical.resF2 p r t = p.x1 - 1 / 2 := by
+    simp only [epv_tree] <;> epv_eos_ifs <;> simp only [epv_leaf] <;> epv_eos_field
+  rw [v0] at h0; rw [v1] at h1; rw [v2] at h2
+  obtain ⟨e1, e2, e0⟩ := default_root_algebra p.gamma p.x0 p.x1 p.x2 3 hγ hx0 (by linear_combination h0) h1 (by linarith)
+  have hx2t : p.x2 * t = (p.gamma - 1) / 2 * t := by rw [e2]
+  have hb : r < p.x2 * t ↔ Noh.c0 ⟨p.gamma, 3, 1, -1⟩ r t := by
+    rw [Bridge.noh_c0_iff]
+    simp only [abs_neg, abs_one, hx2t]
     constructor <;> intro h <;> linarith
-  have c0 : ¬ BBRunSpherical.c0 p r t := by simpa only [epv_cond] using hγ
-  have c2 : ¬ BBRunSpherical.c2 p r t := by simpa only [epv_cond] using hx0
-  have c3 : ¬ BBRunSpherical.c3 p r t := by simpa only [epv_cond] using hx0
   refine ⟨e0, e1, e2, by simp only [epv_tree, ite_self], ?_, ?_, ?_, ?_, ?_⟩
   all_goals
     by_cases hN : Noh.c0 ⟨p.gamma, 3, 1, -1⟩ r t
     · have hB := hb.mpr hN
-      simp only [epv_tree, c0, c2, c3, if_false, if_pos hN, if_pos hB]
-      simp only [epv_leaf, e0, e1, abs_neg, abs_one]
-      try (norm_num <;> first | ring1 | ring_nf)
-    · have hB := fun h => hN (hb.mp h)
-      simp only [epv_tree, c0, c2, c3, if_false, if_neg hN, if_neg hB]
-      simp only [epv_leaf, e0, e1, abs_neg, abs_one]
-      try (norm_num <;> first | ring1 | ring_nf)
+      simp only [epv_cond] at hN
+      simp only [epv_tree] <;> epv_eos_ifs <;>
+      (simp only [epv_leaf, e0, e1, abs_neg, abs_one]
+       try (norm_num <;> first | ring1 | ring_nf))
+    · have hB : ¬ r < p.x2 * t := fun h => hN (hb.mp h)
+      simp only [epv_cond] at hN
+      simp only [epv_tree] <;> epv_eos_ifs <;>
+      (simp only [epv_leaf, e0, e1, abs_neg, abs_one]
+       try (norm_num <;> first | ring1 | ring_nf))
 
 /-- `NohBlackBoxEos(ideal_gas_eos(γ))` (default geometry 3, default symmetry 2) = `Noh(γ, geometry = 3)` -/
 theorem bbrunBase_eq_noh (p : BBRunBase.P) (r t : ℝ) (hok : BBRunBase.outcome p r t = .ok)
@@ -468,33 +498,42 @@ theorem bbrunBase_eq_noh (p : BBRunBase.P) (r t : ℝ) (hok : BBRunBase.outcome 
     BBRunBase.pressure p r t = Noh.pressure ⟨p.gamma, 3, 1, -1⟩ r t ∧
     BBRunBase.specific_internal_energy p r t = Noh.specific_internal_energy ⟨p.gamma, 3, 1, -1⟩ r t ∧
     BBRunBase.velocity p r t = Noh.velocity ⟨p.gamma, 3, 1, -1⟩ r t := by
-  have hγ : p.gamma ≠ 1 := by
-    intro h; simp only [epv_tree, epv_cond, h, if_true] at hok; exact absurd hok (by decide)
-  have hx0 : p.x0 ≠ 0 := by
-    intro h; simp only [epv_tree, epv_cond, h, if_true, ite_self] at hok
-    split_ifs at hok <;> exact absurd hok (by decide)
-  have hroot : p.x1 = 1 / 2 ∧ p.x2 = (p.gamma - 1) / 2 ∧ p.x0 = ((p.gamma + 1) / (p.gamma - 1)) ^ (3 : ℕ) := by
-    simp only [epv_tree, epv_cond, hγ, hx0, if_false, ite_self, epv_leaf] at h0 h1 h2
-    exact default_root_algebra p.gamma p.x0 p.x1 p.x2 3 hγ hx0 (by linear_combination h0) (by linear_combination h1)
-      (by norm_num at h2; linarith)
-  obtain ⟨e1, e2, e0⟩ := hroot
-  have hb : BBRunBase.c1 p r t ↔ Noh.c0 ⟨p.gamma, 3, 1, -1⟩ r t := by
-    simp only [epv_cond, e2, abs_neg, abs_one]
+  -- the documented facts behind acceptance, whatever the order and form of the traced guards
+  have hf : p.gamma ≠ 1 ∧ p.x0 ≠ 0 := by
+    simp only [epv_tree] at hok
+    split_ifs at hok <;> first
+      | epv_absurd
+      | (simp only [epv_cond] at *
+         exact ⟨by epv_eos_fact, by epv_eos_fact⟩)
+  obtain ⟨hγ, hx0⟩ := hf
+  have hg1 : p.gamma - 1 ≠ 0 := sub_ne_zero.mpr hγ
+  -- the residual handed to the solver (the shock test is not decided by the context: both sides return the same residual)
+  have v0 : BBRunBase.resF0 p r t = p.x0 - (1 + 1 / p.x2) ^ (3 : ℕ) := by
+    simp only [epv_tree] <;> epv_eos_ifs <;> simp only [epv_leaf] <;> epv_eos_field
+  have v1 : BBRunBase.resF1 p r t = p.x0 * (p.x1 * (p.gamma - 1) - p.x2) := by
+    simp only [epv_tree] <;> epv_eos_ifs <;> simp only [epv_leaf] <;> epv_eos_field
+  have v2 : BBRunBase.resF2 p r t = p.x1 - 1 / 2 := by
+    simp only [epv_tree] <;> epv_eos_ifs <;> simp only [epv_leaf] <;> epv_eos_field
+  rw [v0] at h0; rw [v1] at h1; rw [v2] at h2
+  obtain ⟨e1, e2, e0⟩ := default_root_algebra p.gamma p.x0 p.x1 p.x2 3 hγ hx0 (by linear_combination h0) h1 (by linarith)
+  have hx2t : p.x2 * t = (p.gamma - 1) / 2 * t := by rw [e2]
+  have hb : r < p.x2 * t ↔ Noh.c0 ⟨p.gamma, 3, 1, -1⟩ r t := by
+    rw [Bridge.noh_c0_iff]
+    simp only [abs_neg, abs_one, hx2t]
     constructor <;> intro h <;> linarith
-  have c0 : ¬ BBRunBase.c0 p r t := by simpa only [epv_cond] using hγ
-  have c2 : ¬ BBRunBase.c2 p r t := by simpa only [epv_cond] using hx0
-  have c3 : ¬ BBRunBase.c3 p r t := by simpa only [epv_cond] using hx0
   refine ⟨e0, e1, e2, by simp only [epv_tree, ite_self], ?_, ?_, ?_, ?_, ?_⟩
   all_goals
     by_cases hN : Noh.c0 ⟨p.gamma, 3, 1, -1⟩ r t
     · have hB := hb.mpr hN
-      simp only [epv_tree, c0, c2, c3, if_false, if_pos hN, if_pos hB]
-      simp only [epv_leaf, e0, e1, abs_neg, abs_one]
-      try (norm_num <;> first | ring1 | ring_nf)
-    · have hB := fun h => hN (hb.mp h)
-      simp only [epv_tree, c0, c2, c3, if_false, if_neg hN, if_neg hB]
-      simp only [epv_leaf, e0, e1, abs_neg, abs_one]
-      try (norm_num <;> first | ring1 | ring_nf)
+      simp only [epv_cond] at hN
+      simp only [epv_tree] <;> epv_eos_ifs <;>
+      (simp only [epv_leaf, e0, e1, abs_neg, abs_one]
+       try (norm_num <;> first | ring1 | ring_nf))
+    · have hB : ¬ r < p.x2 * t := fun h => hN (hb.mp h)
+      simp only [epv_cond] at hN
+      simp only [epv_tree] <;> epv_eos_ifs <;>
+      (simp only [epv_leaf, e0, e1, abs_neg, abs_one]
+       try (norm_num <;> first | ring1 | ring_nf))
 
 /-- non-vacuity of the four statements: γ = 5/3, the textbook states (4, 16, 64; e = 1/2; D = 1/3) are accepted and are roots
 of the residual each route hands to its solver -/
@@ -538,37 +577,46 @@ theorem bbrunIC1_eq_noh (p : BBRunIC1.P) (r t : ℝ) (hok : BBRunIC1.outcome p r
     BBRunIC1.pressure p r t = Noh.pressure ⟨p.gamma, 1, p.rho_0, p.u_0⟩ r t ∧
     BBRunIC1.specific_internal_energy p r t = Noh.specific_internal_energy ⟨p.gamma, 1, p.rho_0, p.u_0⟩ r t ∧
     BBRunIC1.velocity p r t = Noh.velocity ⟨p.gamma, 1, p.rho_0, p.u_0⟩ r t := by
-  have hc : ¬ BBRunIC1.c0 p r t ∧ ¬ BBRunIC1.c1 p r t ∧ ¬ BBRunIC1.c2 p r t ∧ ¬ BBRunIC1.c3 p r t ∧ ¬ BBRunIC1.c5 p r t ∧ ¬ BBRunIC1.c6 p r t := by
+  -- the documented facts behind acceptance, whatever the order and form of the traced guards
+  have hf : p.gamma ≠ 1 ∧ p.u_0 < 0 ∧ 0 < p.rho_0 ∧ p.x0 ≠ 0 := by
     simp only [epv_tree] at hok
     split_ifs at hok <;> first
       | epv_absurd
-      | (refine ⟨?_, ?_, ?_, ?_, ?_, ?_⟩ <;> assumption)
-  obtain ⟨c0, c1, c2, c3, c5, c6⟩ := hc
-  have hγ : p.gamma ≠ 1 := by simpa only [epv_cond] using c0
-  have hu : p.u_0 < 0 := by simpa only [epv_cond, not_le] using c1
-  have hx0 : p.x0 ≠ 0 := by simpa only [epv_cond] using c5
-  have hroot : p.x1 = p.u_0 ^ 2 / 2 ∧ p.x2 = -(p.gamma - 1) * p.u_0 / 2 ∧
-      p.x0 = p.rho_0 * ((p.gamma + 1) / (p.gamma - 1)) ^ (1 : ℕ) := by
-    simp only [epv_tree, c0, c1, c2, c3, c5, c6, if_false, epv_leaf, ite_self] at h0 h1 h2
-    exact ic_root_algebra p.gamma p.rho_0 p.u_0 p.x0 p.x1 p.x2 1 hγ hu hx0 (by linear_combination h0)
-      (by linear_combination h1) (by norm_num at h2; linarith)
-  obtain ⟨e1, e2, e0⟩ := hroot
+      | (simp only [epv_cond] at *
+         exact ⟨by epv_eos_fact, by epv_eos_fact, by epv_eos_fact, by epv_eos_fact⟩)
+  obtain ⟨hγ, hu, hρ0, hx0⟩ := hf
+  have hg1 : p.gamma - 1 ≠ 0 := sub_ne_zero.mpr hγ
+  have hρ0' : p.rho_0 ≠ 0 := hρ0.ne'
+  -- the residual handed to the solver (the shock test is not decided by the context: both sides return the same residual)
+  have v0 : BBRunIC1.resF0 p r t = p.x0 - p.rho_0 * (1 - p.u_0 / p.x2) ^ (1 : ℕ) := by
+    simp only [epv_tree] <;> epv_eos_ifs <;> simp only [epv_leaf] <;> epv_eos_field
+  have v1 : BBRunIC1.resF1 p r t = p.x0 * (p.x1 * (p.gamma - 1) + p.u_0 * p.x2) := by
+    simp only [epv_tree] <;> epv_eos_ifs <;> simp only [epv_leaf] <;> epv_eos_field
+  have v2 : BBRunIC1.resF2 p r t = p.x1 - p.u_0 ^ 2 / 2 := by
+    simp only [epv_tree] <;> epv_eos_ifs <;> simp only [epv_leaf] <;> epv_eos_field
+  rw [v0] at h0; rw [v1] at h1; rw [v2] at h2
+  obtain ⟨e1, e2, e0⟩ := ic_root_algebra p.gamma p.rho_0 p.u_0 p.x0 p.x1 p.x2 1 hγ hu hx0 (by linear_combination h0)
+      h1 (by linarith)
   have hab : |p.u_0| = -p.u_0 := abs_of_neg hu
-  have hb : BBRunIC1.c4 p r t ↔ Noh.c0 ⟨p.gamma, 1, p.rho_0, p.u_0⟩ r t := by
-    simp only [epv_cond, e2, hab]
+  have hx2t : p.x2 * t = -(p.gamma - 1) * p.u_0 / 2 * t := by rw [e2]
+  have hb : r < p.x2 * t ↔ Noh.c0 ⟨p.gamma, 1, p.rho_0, p.u_0⟩ r t := by
+    rw [Bridge.noh_c0_iff]
+    simp only [hab, hx2t]
     constructor <;> intro h <;> linarith
   have hbase : 1 - p.u_0 * (t / r) = 1 + -p.u_0 * t / r := by ring
   refine ⟨e0, e1, e2, by simp only [epv_tree, ite_self], ?_, ?_, ?_, ?_, ?_⟩
   all_goals
     by_cases hN : Noh.c0 ⟨p.gamma, 1, p.rho_0, p.u_0⟩ r t
     · have hB := hb.mpr hN
-      simp only [epv_tree, c0, c1, c2, c3, c5, c6, if_false, if_pos hN, if_pos hB]
-      simp only [epv_leaf, e0, e1, hab, hbase]
-      try (norm_num <;> first | ring1 | ring_nf)
-    · have hB := fun h => hN (hb.mp h)
-      simp only [epv_tree, c0, c1, c2, c3, c5, c6, if_false, if_neg hN, if_neg hB]
-      simp only [epv_leaf, e0, e1, hab, hbase]
-      try (norm_num <;> first | ring1 | ring_nf)
+      simp only [epv_cond] at hN
+      simp only [epv_tree] <;> epv_eos_ifs <;>
+      (simp only [epv_leaf, e0, e1, hab, hbase]
+       try (norm_num <;> first | ring1 | ring_nf))
+    · have hB : ¬ r < p.x2 * t := fun h => hN (hb.mp h)
+      simp only [epv_cond] at hN
+      simp only [epv_tree] <;> epv_eos_ifs <;>
+      (simp only [epv_leaf, e0, e1, hab, hbase]
+       try (norm_num <;> first | ring1 | ring_nf))
 
 /-- `NohBlackBoxEos(ideal_gas_eos(γ), {ρ₀, u₀, 0, symmetry 1}, geometry=2, rho0=ρ₀, u0=u₀)` = `Noh(γ, 2, ρ₀, u₀)`: accepted (so γ ≠ 1,
 u₀ < 0, ρ₀ > 0) and the Newton result a root of the residual handed to the solver ⇒ all five fields agree everywhere -/
@@ -581,37 +629,46 @@ theorem bbrunIC2_eq_noh (p : BBRunIC2.P) (r t : ℝ) (hok : BBRunIC2.outcome p r
     BBRunIC2.pressure p r t = Noh.pressure ⟨p.gamma, 2, p.rho_0, p.u_0⟩ r t ∧
     BBRunIC2.specific_internal_energy p r t = Noh.specific_internal_energy ⟨p.gamma, 2, p.rho_0, p.u_0⟩ r t ∧
     BBRunIC2.velocity p r t = Noh.velocity ⟨p.gamma, 2, p.rho_0, p.u_0⟩ r t := by
-  have hc : ¬ BBRunIC2.c0 p r t ∧ ¬ BBRunIC2.c1 p r t ∧ ¬ BBRunIC2.c2 p r t ∧ ¬ BBRunIC2.c3 p r t ∧ ¬ BBRunIC2.c5 p r t ∧ ¬ BBRunIC2.c6 p r t := by
+  -- the documented facts behind acceptance, whatever the order and form of the traced guards
+  have hf : p.gamma ≠ 1 ∧ p.u_0 < 0 ∧ 0 < p.rho_0 ∧ p.x0 ≠ 0 := by
     simp only [epv_tree] at hok
     split_ifs at hok <;> first
       | epv_absurd
-      | (refine ⟨?_, ?_, ?_, ?_, ?_, ?_⟩ <;> assumption)
-  obtain ⟨c0, c1, c2, c3, c5, c6⟩ := hc
-  have hγ : p.gamma ≠ 1 := by simpa only [epv_cond] using c0
-  have hu : p.u_0 < 0 := by simpa only [epv_cond, not_le] using c1
-  have hx0 : p.x0 ≠ 0 := by simpa only [epv_cond] using c5
-  have hroot : p.x1 = p.u_0 ^ 2 / 2 ∧ p.x2 = -(p.gamma - 1) * p.u_0 / 2 ∧
-      p.x0 = p.rho_0 * ((p.gamma + 1) / (p.gamma - 1)) ^ (2 : ℕ) := by
-    simp only [epv_tree, c0, c1, c2, c3, c5, c6, if_false, epv_leaf, ite_self] at h0 h1 h2
-    exact ic_root_algebra p.gamma p.rho_0 p.u_0 p.x0 p.x1 p.x2 2 hγ hu hx0 (by linear_combination h0)
-      (by linear_combination h1) (by norm_num at h2; linarith)
-  obtain ⟨e1, e2, e0⟩ := hroot
+      | (simp only [epv_cond] at *
+         exact ⟨by epv_eos_fact, by epv_eos_fact, by epv_eos_fact, by epv_eos_fact⟩)
+  obtain ⟨hγ, hu, hρ0, hx0⟩ := hf
+  have hg1 : p.gamma - 1 ≠ 0 := sub_ne_zero.mpr hγ
+  have hρ0' : p.rho_0 ≠ 0 := hρ0.ne'
+  -- the residual handed to the solver (the shock test is not decided by the context: both sides return the same residual)
+  have v0 : BBRunIC2.resF0 p r t = p.x0 - p.rho_0 * (1 - p.u_0 / p.x2) ^ (2 : ℕ) := by
+    simp only [epv_tree] <;> epv_eos_ifs <;> simp only [epv_leaf] <;> epv_eos_field
+  have v1 : BBRunIC2.resF1 p r t = p.x0 * (p.x1 * (p.gamma - 1) + p.u_0 * p.x2) := by
+    simp only [epv_tree] <;> epv_eos_ifs <;> simp only [epv_leaf] <;> epv_eos_field
+  have v2 : BBRunIC2.resF2 p r t = p.x1 - p.u_0 ^ 2 / 2 := by
+    simp only [epv_tree] <;> epv_eos_ifs <;> simp only [epv_leaf] <;> epv_eos_field
+  rw [v0] at h0; rw [v1] at h1; rw [v2] at h2
+  obtain ⟨e1, e2, e0⟩ := ic_root_algebra p.gamma p.rho_0 p.u_0 p.x0 p.x1 p.x2 2 hγ hu hx0 (by linear_combination h0)
+      h1 (by linarith)
   have hab : |p.u_0| = -p.u_0 := abs_of_neg hu
-  have hb : BBRunIC2.c4 p r t ↔ Noh.c0 ⟨p.gamma, 2, p.rho_0, p.u_0⟩ r t := by
-    simp only [epv_cond, e2, hab]
+  have hx2t : p.x2 * t = -(p.gamma - 1) * p.u_0 / 2 * t := by rw [e2]
+  have hb : r < p.x2 * t ↔ Noh.c0 ⟨p.gamma, 2, p.rho_0, p.u_0⟩ r t := by
+    rw [Bridge.noh_c0_iff]
+    simp only [hab, hx2t]
     constructor <;> intro h <;> linarith
   have hbase : 1 - p.u_0 * (t / r) = 1 + -p.u_0 * t / r := by ring
   refine ⟨e0, e1, e2, by simp only [epv_tree, ite_self], ?_, ?_, ?_, ?_, ?_⟩
   all_goals
     by_cases hN : Noh.c0 ⟨p.gamma, 2, p.rho_0, p.u_0⟩ r t
     · have hB := hb.mpr hN
-      simp only [epv_tree, c0, c1, c2, c3, c5, c6, if_false, if_pos hN, if_pos hB]
-      simp only [epv_leaf, e0, e1, hab, hbase]
-      try (norm_num <;> first | ring1 | ring_nf)
-    · have hB := fun h => hN (hb.mp h)
-      simp only [epv_tree, c0, c1, c2, c3, c5, c6, if_false, if_neg hN, if_neg hB]
-      simp only [epv_leaf, e0, e1, hab, hbase]
-      try (norm_num <;> first | ring1 | ring_nf)
+      simp only [epv_cond] at hN
+      simp only [epv_tree] <;> epv_eos_ifs <;>
+      (simp only [epv_leaf, e0, e1, hab, hbase]
+       try (norm_num <;> first | ring1 | ring_nf))
+    · have hB : ¬ r < p.x2 * t := fun h => hN (hb.mp h)
+      simp only [epv_cond] at hN
+      simp only [epv_tree] <;> epv_eos_ifs <;>
+      (simp only [epv_leaf, e0, e1, hab, hbase]
+       try (norm_num <;> first | ring1 | ring_nf))
 
 /-- `NohBlackBoxEos(ideal_gas_eos(γ), {ρ₀, u₀, 0, symmetry 2}, geometry=3, rho0=ρ₀, u0=u₀)` = `Noh(γ, 3, ρ₀, u₀)`: accepted (so γ ≠ 1,
 u₀ < 0, ρ₀ > 0) and the Newton result a root of the residual handed to the solver ⇒ all five fields agree everywhere -/
@@ -624,37 +681,46 @@ theorem bbrunIC3_eq_noh (p : BBRunIC3.P) (r t : ℝ) (hok : BBRunIC3.outcome p r
     BBRunIC3.pressure p r t = Noh.pressure ⟨p.gamma, 3, p.rho_0, p.u_0⟩ r t ∧
     BBRunIC3.specific_internal_energy p r t = Noh.specific_internal_energy ⟨p.gamma, 3, p.rho_0, p.u_0⟩ r t ∧
     BBRunIC3.velocity p r t = Noh.velocity ⟨p.gamma, 3, p.rho_0, p.u_0⟩ r t := by
-  have hc : ¬ BBRunIC3.c0 p r t ∧ ¬ BBRunIC3.c1 p r t ∧ ¬ BBRunIC3.c2 p r t ∧ ¬ BBRunIC3.c3 p r t ∧ ¬ BBRunIC3.c5 p r t ∧ ¬ BBRunIC3.c6 p r t := by
+  -- the documented facts behind acceptance, whatever the order and form of the traced guards
+  have hf : p.gamma ≠ 1 ∧ p.u_0 < 0 ∧ 0 < p.rho_0 ∧ p.x0 ≠ 0 := by
     simp only [epv_tree] at hok
     split_ifs at hok <;> first
       | epv_absurd
-      | (refine ⟨?_, ?_, ?_, ?_, ?_, ?_⟩ <;> assumption)
-  obtain ⟨c0, c1, c2, c3, c5, c6⟩ := hc
-  have hγ : p.gamma ≠ 1 := by simpa only [epv_cond] using c0
-  have hu : p.u_0 < 0 := by simpa only [epv_cond, not_le] using c1
-  have hx0 : p.x0 ≠ 0 := by simpa only [epv_cond] using c5
-  have hroot : p.x1 = p.u_0 ^ 2 / 2 ∧ p.x2 = -(p.gamma - 1) * p.u_0 / 2 ∧
-      p.x0 = p.rho_0 * ((p.gamma + 1) / (p.gamma - 1)) ^ (3 : ℕ) := by
-    simp only [epv_tree, c0, c1, c2, c3, c5, c6, if_false, epv_leaf, ite_self] at h0 h1 h2
-    exact ic_root_algebra p.gamma p.rho_0 p.u_0 p.x0 p.x1 p.x2 3 hγ hu hx0 (by linear_combination h0)
-      (by linear_combination h1) (by norm_num at h2; linarith)
-  obtain ⟨e1, e2, e0⟩ := hroot
+      | (simp only [epv_cond] at *
+         exact ⟨by epv_eos_fact, by epv_eos_fact, by epv_eos_fact, by epv_eos_fact⟩)
+  obtain ⟨hγ, hu, hρ0, hx0⟩ := hf
+  have hg1 : p.gamma - 1 ≠ 0 := sub_ne_zero.mpr hγ
+  have hρ0' : p.rho_0 ≠ 0 := hρ0.ne'
+  -- the residual handed to the solver (the shock test is not decided by the context: both sides return the same residual)
+  have v0 : BBRunIC3.resF0 p r t = p.x0 - p.rho_0 * (1 - p.u_0 / p.x2) ^ (3 : ℕ) := by
+    simp only [epv_tree] <;> epv_eos_ifs <;> simp only [epv_leaf] <;> epv_eos_field
+  have v1 : BBRunIC3.resF1 p r t = p.x0 * (p.x1 * (p.gamma - 1) + p.u_0 * p.x2) := by
+    simp only [epv_tree] <;> epv_eos_ifs <;> simp only [epv_leaf] <;> epv_eos_field
+  have v2 : BBRunIC3.resF2 p r t = p.x1 - p.u_0 ^ 2 / 2 := by
+    simp only [epv_tree] <;> epv_eos_ifs <;> simp only [epv_leaf] <;> epv_eos_field
+  rw [v0] at h0; rw [v1] at h1; rw [v2] at h2
+  obtain ⟨e1, e2, e0⟩ := ic_root_algebra p.gamma p.rho_0 p.u_0 p.x0 p.x1 p.x2 3 hγ hu hx0 (by linear_combination h0)
+      h1 (by linarith)
   have hab : |p.u_0| = -p.u_0 := abs_of_neg hu
-  have hb : BBRunIC3.c4 p r t ↔ Noh.c0 ⟨p.gamma, 3, p.rho_0, p.u_0⟩ r t := by
-    simp only [epv_cond, e2, hab]
+  have hx2t : p.x2 * t = -(p.gamma - 1) * p.u_0 / 2 * t := by rw [e2]
+  have hb : r < p.x2 * t ↔ Noh.c0 ⟨p.gamma, 3, p.rho_0, p.u_0⟩ r t := by
+    rw [Bridge.noh_c0_iff]
+    simp only [hab, hx2t]
     constructor <;> intro h <;> linarith
   have hbase : 1 - p.u_0 * (t / r) = 1 + -p.u_0 * t / r := by ring
   refine ⟨e0, e1, e2, by simp only [epv_tree, ite_self], ?_, ?_, ?_, ?_, ?_⟩
   all_goals
     by_cases hN : Noh.c0 ⟨p.gamma, 3, p.rho_0, p.u_0⟩ r t
     · have hB := hb.mpr hN
-      simp only [epv_tree, c0, c1, c2, c3, c5, c6, if_false, if_pos hN, if_pos hB]
-      simp only [epv_leaf, e0, e1, hab, hbase]
-      try (norm_num <;> first | ring1 | ring_nf)
-    · have hB := fun h => hN (hb.mp h)
-      simp only [epv_tree, c0, c1, c2, c3, c5, c6, if_false, if_neg hN, if_neg hB]
-      simp only [epv_leaf, e0, e1, hab, hbase]
-      try (norm_num <;> first | ring1 | ring_nf)
+      simp only [epv_cond] at hN
+      simp only [epv_tree] <;> epv_eos_ifs <;>
+      (simp only [epv_leaf, e0, e1, hab, hbase]
+       try (norm_num <;> first | ring1 | ring_nf))
+    · have hB : ¬ r < p.x2 * t := fun h => hN (hb.mp h)
+      simp only [epv_cond] at hN
+      simp only [epv_tree] <;> epv_eos_ifs <;>
+      (simp only [epv_leaf, e0, e1, hab, hbase]
+       try (norm_num <;> first | ring1 | ring_nf))
 
 /-- non-vacuity: ρ₀ = 2, u₀ = -3, γ = 7/5, spherical: accepted, and Noh's state (2·6³, 9/2, 3/5) is a root -/
 example : BBRunIC3.outcome ⟨7 / 5, 2, -3, 432, 9 / 2, 3 / 5⟩ 1 1 = .ok ∧ BBRunIC3.resF0 ⟨7 / 5, 2, -3, 432, 9 / 2, 3 / 5⟩ 1 1 = 0 ∧
